@@ -5,8 +5,13 @@
 
     [slash_free_below] and (when no logged name is a path-prefix of another)
     [chain_const_below] hold of the ordered tree the reporter prints (WP08);
-    the theorems here hold for EVERY tree with these properties, every [Num]. *)
-From HP Require Import Base.Bytes Base.Num Model.Elements Model.Tree Model.Reporters
+    the theorems here hold for EVERY tree with these properties, every [Num].
+
+    After fix 3cc3ec3 ([--collapse] / [--collapse-last] join a category with
+    its only sub-category only while the totals are Go-equal, [t_eqb]) the
+    second half of this file states what holds for EVERY tree, also when a
+    logged name IS a path-prefix of another: joining hides no amount. *)
+From HP Require Import Base.Bytes Base.Num Base.GoFloat Model.Elements Model.Tree Model.Reporters
   Spec.TreeShared Spec.BalancePrintSpec Proofs.BalancePrint.
 
 (** plain mode shows every category path exactly once with its total, in
@@ -97,10 +102,168 @@ Theorem balance_rows_never_drops :
 Proof. exact BalancePrint.balance_rows_never_drops. Qed.
 Print Assumptions balance_rows_never_drops.
 
-(** the hypothesis is necessary: with entries [a:1, a/b:2] collapsed mode shows
-    the leaf [a/b] with 3, plain mode with 2 *)
-Theorem collapsed_leaves_without_hypothesis_refuted :
-  ~ (forall t : tree ZNum, slash_free_below ZNum t ->
-       leaf_rows ZNum (print_collapsed ZNum t) = tree_leaves ZNum t).
-Proof. exact BalancePrint.collapsed_leaves_without_hypothesis_refuted. Qed.
-Print Assumptions collapsed_leaves_without_hypothesis_refuted.
+(** * After fix 3cc3ec3: every tree, no hypothesis on the totals *)
+
+(** every row printed by [--collapse-last] ([print_node true]) or [--collapse]
+    ([print_collapsed]), read back as (path of the parent row, segments of its
+    own label, amount), stands for a chain of nodes of the tree - one per
+    segment, each the only child of the one before ([chain_paths] are node
+    paths of the tree) - such that the amount shown is the total of the first
+    node and the total of every further node is Go-equal ([==]) to its
+    parent's ([joined_ok]); when [==] is transitive (float64, exact numbers:
+    below) the totals of the chain are pairwise Go-equal.  So the amount on a
+    joined row is Go-equal to the total of EVERY node on the joined path: no
+    amount is hidden by joining. *)
+Theorem collapse_joins_equal_totals :
+  forall (NM : Num) (t : tree NM),
+    slash_free_below NM t ->
+    forall rows, rows = print_node NM true 0 t \/ rows = print_collapsed NM t ->
+    forall pp own y, In (pp, own, y) (decode_own NM rows) ->
+      exists chain : list (bytes * T NM),
+        map fst chain = own /\ joined_ok NM y chain /\
+        incl (chain_paths NM pp chain) (tree_paths NM t) /\
+        (go_eq_transitive NM -> ForallOrdPairs (fun a c => t_eqb NM (snd c) (snd a) = true) chain).
+Proof. exact BalancePrint.collapse_joins_equal_totals. Qed.
+Print Assumptions collapse_joins_equal_totals.
+
+(** in each mode the rows account for the whole tree: node totals can be
+    written next to the segments of the rows such that every row is an honest
+    joined row and the (path, total) pairs read off are exactly the nodes of
+    the tree, each once, in pre-order ([rows_account_for], Spec/BalancePrintSpec.v) *)
+Theorem modes_account_for_tree :
+  forall (NM : Num) (t : tree NM),
+    slash_free_below NM t ->
+    rows_account_for NM t (rows_plain NM t) /\
+    rows_account_for NM t (rows_collapse_last NM t) /\
+    rows_account_for NM t (rows_collapsed NM t).
+Proof. exact BalancePrint.modes_account_for_tree. Qed.
+Print Assumptions modes_account_for_tree.
+
+(** every node's (path, total) is recoverable from the output of every mode:
+    [shown_paths rows] = every category path the reader sees, once, with the
+    amount of the row in which its last segment is printed; in plain mode this
+    IS the node list of the tree, in the two collapsing modes it is the node
+    list up to Go-equality of the amounts (same paths, same order, each amount
+    linked to the node's total by a chain of [==]) *)
+Theorem modes_show_every_path_total :
+  forall (NM : Num) (t : tree NM),
+    slash_free_below NM t ->
+    shown_paths NM (rows_plain NM t) = tree_paths NM t /\
+    Forall2 (same_path_go_equal NM) (shown_paths NM (rows_collapse_last NM t)) (tree_paths NM t) /\
+    Forall2 (same_path_go_equal NM) (shown_paths NM (rows_collapsed NM t)) (tree_paths NM t).
+Proof. exact BalancePrint.modes_show_every_path_total. Qed.
+Print Assumptions modes_show_every_path_total.
+
+(** node by node, when [==] is transitive: every node is shown, in the row in
+    which its last segment is printed, with an amount equal or Go-equal to its total *)
+Theorem every_node_total_shown :
+  forall (NM : Num) (t : tree NM),
+    slash_free_below NM t -> go_eq_transitive NM ->
+    forall rows, rows = print_node NM false 0 t \/ rows = print_node NM true 0 t \/ rows = print_collapsed NM t ->
+    forall p x, In (p, x) (tree_paths NM t) ->
+      exists y, In (p, y) (shown_paths NM rows) /\ (y = x \/ t_eqb NM y x = true).
+Proof. exact BalancePrint.every_node_total_shown. Qed.
+Print Assumptions every_node_total_shown.
+
+(** every ROW of every mode (joined inner rows included) carries an amount
+    Go-equal-linked to the total of the node its full path names:
+    [collapse_last_rows_are_nodes] / [collapsed_rows_are_nodes] without
+    [chain_const_below] *)
+Theorem rows_are_nodes_go_equal :
+  forall (NM : Num) (t : tree NM),
+    slash_free_below NM t ->
+    forall rows, rows = print_node NM false 0 t \/ rows = print_node NM true 0 t \/ rows = print_collapsed NM t ->
+    forall p y lf, In (p, y, lf) (decode NM rows) ->
+      exists x, In (p, x) (tree_paths NM t) /\ go_eq_chain NM y x.
+Proof. exact BalancePrint.rows_are_nodes_go_equal. Qed.
+Print Assumptions rows_are_nodes_go_equal.
+
+(** the leaves without the prefix hypothesis: all modes show the same leaf
+    paths; the amounts of the collapsing modes are Go-equal-linked to the plain ones *)
+Theorem modes_agree_go_equal :
+  forall (NM : Num) (t : tree NM),
+    slash_free_below NM t ->
+    leaf_rows NM (rows_plain NM t) = tree_leaves NM t /\
+    Forall2 (same_path_go_equal NM) (leaf_rows NM (rows_collapse_last NM t)) (leaf_rows NM (rows_plain NM t)) /\
+    Forall2 (same_path_go_equal NM) (leaf_rows NM (rows_collapsed NM t)) (leaf_rows NM (rows_plain NM t)).
+Proof. exact BalancePrint.modes_agree_go_equal. Qed.
+Print Assumptions modes_agree_go_equal.
+
+(** ... and exactly the same amounts where Go-equal amounts are equal: [modes_agree]
+    without [chain_const_below] *)
+Theorem modes_agree_exact :
+  forall (NM : Num) (t : tree NM),
+    go_eq_is_eq NM -> slash_free_below NM t ->
+    leaf_rows NM (rows_plain NM t) = tree_leaves NM t /\
+    leaf_rows NM (rows_collapse_last NM t) = leaf_rows NM (rows_plain NM t) /\
+    leaf_rows NM (rows_collapsed NM t) = leaf_rows NM (rows_plain NM t).
+Proof. exact BalancePrint.modes_agree_exact. Qed.
+Print Assumptions modes_agree_exact.
+
+(** the two laws at the instances: [==] of float64 is transitive; Go-equal
+    exact numbers are equal; Go-equal floats need not be ([-0 == +0]) *)
+Theorem B64_go_eq_transitive : go_eq_transitive B64.
+Proof. exact BalancePrint.B64_go_eq_transitive. Qed.
+Print Assumptions B64_go_eq_transitive.
+
+Theorem ZNum_go_eq_is_eq : go_eq_is_eq ZNum.
+Proof. exact BalancePrint.ZNum_go_eq_is_eq. Qed.
+Print Assumptions ZNum_go_eq_is_eq.
+
+Theorem B64_go_eq_is_not_eq : ~ go_eq_is_eq B64.
+Proof. exact BalancePrint.B64_go_eq_is_not_eq. Qed.
+Print Assumptions B64_go_eq_is_not_eq.
+
+(** before the fix the hypothesis [chain_const_below] was necessary
+    ([collapsed_leaves_without_hypothesis_refuted]: with entries [a:1, a/b:2]
+    collapsed mode showed the leaf [a/b] with 3, plain mode with 2).  That
+    refutation is FALSE of the repaired program; at exact numbers the
+    theorems now hold without the hypothesis: *)
+Theorem collapsed_leaves_without_hypothesis :
+  forall t : tree ZNum, slash_free_below ZNum t ->
+    leaf_rows ZNum (print_collapsed ZNum t) = tree_leaves ZNum t.
+Proof. exact BalancePrint.collapsed_leaves_without_hypothesis. Qed.
+Print Assumptions collapsed_leaves_without_hypothesis.
+
+Theorem collapse_last_leaves_without_hypothesis :
+  forall t : tree ZNum, slash_free_below ZNum t ->
+    leaf_rows ZNum (print_node ZNum true 0 t) = tree_leaves ZNum t.
+Proof. exact BalancePrint.collapse_last_leaves_without_hypothesis. Qed.
+Print Assumptions collapse_last_leaves_without_hypothesis.
+
+(** at float64 the EXACT statement still needs the hypothesis, for the sign of
+    a zero only: entries [a:0, a/b:-0] *)
+Theorem collapsed_leaves_without_hypothesis_refuted_b64 :
+  leaf_rows B64 (rows_plain B64 signed_zero_tree) = [([b "a"; b "b"], b64_neg_zero)] /\
+  leaf_rows B64 (rows_collapsed B64 signed_zero_tree) = [([b "a"; b "b"], b64_zero)] /\
+  leaf_rows B64 (rows_collapse_last B64 signed_zero_tree) = [([b "a"; b "b"], b64_zero)] /\
+  b64_zero <> b64_neg_zero /\ t_eqb B64 b64_neg_zero b64_zero = true.
+Proof. exact BalancePrint.collapsed_leaves_without_hypothesis_refuted_b64. Qed.
+Print Assumptions collapsed_leaves_without_hypothesis_refuted_b64.
+
+(** the example of the fix: log [coffee 1, coffee/latte/large 2, tea/green/cup 4,
+    milk 1, milk/whole 2] ([fix_tree] = its ordered tree), the three outputs
+    of the repaired program *)
+Theorem fix_rows_plain :
+  rows_plain ZNum fix_tree =
+  [(3%Z, 0%nat, b "coffee"); (2%Z, 1%nat, b "latte"); (2%Z, 2%nat, b "large");
+   (3%Z, 0%nat, b "milk"); (2%Z, 1%nat, b "whole");
+   (4%Z, 0%nat, b "tea"); (4%Z, 1%nat, b "green"); (4%Z, 2%nat, b "cup")].
+Proof. exact BalancePrint.fix_rows_plain. Qed.
+Print Assumptions fix_rows_plain.
+
+Theorem fix_rows_collapsed :
+  rows_collapsed ZNum fix_tree =
+  [(3%Z, 0%nat, b "coffee"); (2%Z, 1%nat, b "latte/large");
+   (3%Z, 0%nat, b "milk"); (2%Z, 1%nat, b "whole");
+   (4%Z, 0%nat, b "tea/green/cup")].
+Proof. exact BalancePrint.fix_rows_collapsed. Qed.
+Print Assumptions fix_rows_collapsed.
+
+Theorem fix_rows_collapse_last :
+  rows_collapse_last ZNum fix_tree =
+  [(3%Z, 0%nat, b "coffee"); (2%Z, 1%nat, b "latte/large");
+   (3%Z, 0%nat, b "milk"); (2%Z, 1%nat, b "whole");
+   (4%Z, 0%nat, b "tea"); (4%Z, 1%nat, b "green/cup")].
+Proof. exact BalancePrint.fix_rows_collapse_last. Qed.
+Print Assumptions fix_rows_collapse_last.
